@@ -5,6 +5,9 @@
         confirm, in a throw-away worktree of /repo, that the change (1) applies, (2) byte-compiles, (3) keeps the pinned
         suite at 79 passes, and that the demonstration (4) passes without and (5) fails with the change; on success copy
         patch / demo / notes into /verif/seeded/<id>/ and write meta.json.
+  tools/seeded.py verify-neutral <src_out_dir> <id> <patch>   /   run-neutral [<id> ...]
+        the same for behaviour-PRESERVING changes (kept under /verif/seeded_neutral): the demo must exit 0 with the change;
+        run-neutral reports every check that raises a VIOLATION (a false alarm) or goes UNDECIDED on such a change
   tools/seeded.py meta [<id> ...]
         fill property / title / "what it needs to manifest" of meta.json from the agent's notes.md
   tools/seeded.py run [<id> ...]
@@ -124,6 +127,76 @@ def run_one(sid):
         return ("%-8s target=%s caught=%s any=%s fired=%s" % (sid, target, caught, meta["checks"]["caught_by_any"], {k: v["rules"] or ("exit%d" % v["exit"]) for k, v in fired.items()}))
 
 
+def verify_neutral(src, sid, patch, demo="demo.py"):
+    """a behaviour-preserving change: applies, compiles, suite stays at 79, and the agent's demo (which exercises the
+    property) exits 0 without and with it.  Kept under /verif/seeded_neutral/<id>/."""
+    patch_p, demo_p = os.path.join(src, patch), os.path.join(src, demo)
+    res = {"id": sid, "steps": {}}
+    src_wt = os.path.dirname(os.path.abspath(src).rstrip("/"))
+    with Worktree() as wt:
+        os.makedirs(os.path.join(wt, "_out"), exist_ok=True)
+        for name in os.listdir(src):
+            if name.endswith(".py"):
+                with open(os.path.join(src, name)) as fh, open(os.path.join(wt, "_out", name), "w") as out:
+                    t = fh.read()
+                    out.write(t.replace(src_wt, wt) if src_wt.startswith("/tmp/") else t)
+        rc0, out0 = sh("PYTHONPATH=%s %s _out/%s" % (wt, PY, demo), cwd=wt, timeout=900)
+        res["steps"]["demo_without_change"] = {"exit": rc0, "tail": out0[-300:]}
+        rc_a, out_a = sh("git apply %s" % patch_p, cwd=wt)
+        res["steps"]["apply"] = {"exit": rc_a, "tail": out_a[-300:]}
+        rc_c, out_c = sh("%s -m compileall -q yowsup" % PY, cwd=wt)
+        res["steps"]["compile"] = {"exit": rc_c}
+        rc_t, out_t = sh("PYTHONPATH=%s %s -m pytest -q -p no:cacheprovider --continue-on-collection-errors 2>&1 | tail -1" % (wt, PY), cwd=wt)
+        res["steps"]["suite"] = {"tail": out_t.strip()}
+        rc_d, out_d = sh("PYTHONPATH=%s %s _out/%s" % (wt, PY, demo), cwd=wt, timeout=900)
+        res["steps"]["demo_with_change"] = {"exit": rc_d, "tail": out_d[-300:]}
+    ok = rc0 == 0 and rc_a == 0 and rc_c == 0 and out_t.strip().startswith("79 passed") and rc_d == 0
+    res["confirmed"] = ok
+    print(json.dumps(res, indent=1))
+    if ok:
+        dst = os.path.join(VERIF, "seeded_neutral", sid)
+        os.makedirs(dst, exist_ok=True)
+        shutil.copy(patch_p, os.path.join(dst, "patch.diff"))
+        shutil.copy(demo_p, os.path.join(dst, "demo.py"))
+        if os.path.exists(os.path.join(src, "notes.md")):
+            shutil.copy(os.path.join(src, "notes.md"), os.path.join(dst, "notes.md"))
+        import re
+        m = re.search(r"c(\d\d)", sid)
+        meta = {"id": sid, "property": "C" + m.group(1), "kind": "behaviour-preserving refactoring (the property still holds)", "demo_worktree_path": src_wt, "confirmed": res["steps"],
+                "what_i_ran": ["demo on a clean worktree (exit 0)", "git apply", "compileall", "pinned suite: " + out_t.strip(), "demo with the change (exit 0)"]}
+        json.dump(meta, open(os.path.join(dst, "meta.json"), "w"), indent=1)
+    return ok
+
+
+def run_neutral_one(sid):
+    d = os.path.join(VERIF, "seeded_neutral", sid)
+    meta_p = os.path.join(d, "meta.json")
+    meta = json.load(open(meta_p))
+    fired = {}
+    with Worktree() as wt:
+        rc, out = sh("git apply %s" % os.path.join(d, "patch.diff"), cwd=wt)
+        if rc:
+            return "%s patch does not apply" % sid
+        for p in PROPS:
+            rc, out = sh("./check %s --repo %s --no-write" % (p, wt), cwd=VERIF, timeout=900)
+            if rc != 0:
+                lines = [l.strip() for l in out.splitlines() if l.startswith("  C") and " :: " in l]
+                und = [l for l in out.splitlines() if l.startswith("UNDECIDED") or l.startswith("ANALYSIS-ERROR")]
+                fired[p] = {"exit": rc, "rules": sorted({l.split()[0] for l in lines}), "first": (lines or und or [""])[0][:400]}
+    meta["checks"] = {"fired": fired, "false_alarm": any(v["exit"] == 1 for v in fired.values()), "undecided": any(v["exit"] == 2 for v in fired.values())}
+    json.dump(meta, open(meta_p, "w"), indent=1)
+    return "%-9s target=%s false_alarm=%s undecided=%s fired=%s" % (sid, meta["property"], meta["checks"]["false_alarm"], meta["checks"]["undecided"], {k: v["rules"] or ("exit%d" % v["exit"]) for k, v in fired.items()})
+
+
+def run_neutral(ids):
+    base = os.path.join(VERIF, "seeded_neutral")
+    ids = ids or sorted(d for d in os.listdir(base) if os.path.isdir(os.path.join(base, d)))
+    from concurrent.futures import ThreadPoolExecutor
+    with ThreadPoolExecutor(max_workers=min(14, len(ids))) as ex:
+        for line in ex.map(run_neutral_one, ids):
+            print(line, flush=True)
+
+
 def fill_meta(ids):
     """property id, title and 'what it needs to manifest' from the agent's notes.md into meta.json"""
     import re
@@ -183,5 +256,9 @@ if __name__ == "__main__":
         run(sys.argv[2:])
     elif len(sys.argv) >= 2 and sys.argv[1] == "meta":
         fill_meta(sys.argv[2:])
+    elif len(sys.argv) >= 5 and sys.argv[1] == "verify-neutral":
+        sys.exit(0 if verify_neutral(sys.argv[2], sys.argv[3], sys.argv[4]) else 1)
+    elif len(sys.argv) >= 2 and sys.argv[1] == "run-neutral":
+        run_neutral(sys.argv[2:])
     else:
         print(__doc__)
